@@ -395,7 +395,7 @@ Definition origin_consistent (t : vtrace) : Prop :=
       (sig_verifies (t_key t) (t_view t) = true -> key = Some (t_key t))
       /\ forall tk c, t_view t = VTok tk -> tk_claims tk = CObj c ->
            aud = str_of (get jwt_k_aud_validate c) /\ app = str_of (get jwt_k_app_validate c) /\ exp = floor_of (get k_exp c)
-  | OIssued k intact app aud t0 d dig =>
+  | OIssued k intact app aud t0 d dig _ =>
       if intact then
         exists txt pl dg, count_byte 47%N app = 1%nat /\ get k_nbf pl = None
           /\ t_view t = issued_view k aud app d t0 txt pl dg /\ (aud = t_aud t -> dg = Some dig)
@@ -416,7 +416,7 @@ Lemma tok_ok_allowed ac dc sc t g p :
   origin_allows false t = true /\ payload_matches t g p = true.
 Proof.
   intros K OC Haud H. unfold origin_consistent in OC. unfold origin_allows, payload_matches.
-  destruct (t_origin t) as [k intact app aud t0 d dig | k aud app exp |].
+  destruct (t_origin t) as [k intact app aud t0 d dig ints | k aud app exp |].
   - destruct intact.
     + destruct OC as (txt & pl & dg & Happ & Hnbf & Hv & Hdg).
       rewrite Hv, (issued_tok_result ac dc sc K) in H by assumption. unfold issued_result in H.
@@ -447,7 +447,7 @@ Lemma allows_bound t g p :
   origin_allows false t = true -> payload_matches t g p = true -> gp_app g = t_app t -> origin_allows true t = true.
 Proof.
   unfold origin_allows, payload_matches. intros A P E.
-  destruct (t_origin t) as [k intact app aud t0 d dig | k aud app exp |]; [| |discriminate].
+  destruct (t_origin t) as [k intact app aud t0 d dig ints | k aud app exp |]; [| |discriminate].
   - cbn [negb orb] in *. rewrite andb_true_r in A. rewrite A. cbn.
     repeat (apply andb_true_iff in P as [P _]). apply lex_eqb_eq in P. rewrite <- P, E. apply lex_eqb_refl.
   - cbn [negb orb] in *. rewrite andb_true_r in A. rewrite A. cbn.
@@ -466,7 +466,7 @@ Proof.
   intros K t OC Haud NP A. unfold agrees_v in A. unfold satisfies_v.
   unfold validate_tok, validate_app in *.
   set (ac := jwt_aud_assert_checked) in *. set (dc := jwt_dur_assert_checked) in *. set (sc := jwt_sig_canon_checked) in *. clearbody ac dc sc.
-  apply andb_true_iff in A as [A A3]. apply andb_true_iff in A as [A1 A2].
+  apply andb_true_iff in A as [A _]. apply andb_true_iff in A as [A A3]. apply andb_true_iff in A as [A1 A2].
   assert (NP2 : validate_app_g ac dc sc (t_key t) (t_aud t) (t_app t) (t_now t) (t_view t) <> Panic)
     by (intros E; apply app_panic_iff in E; contradiction).
   assert (B : forall g p, validate_app_g ac dc sc (t_key t) (t_aud t) (t_app t) (t_now t) (t_view t) = Ok g p ->
@@ -493,4 +493,19 @@ Proof.
   unfold agrees_k, satisfies_k. intros A. apply andb_true_iff in A as [_ A].
   destruct (k_hash_eq t) as [e|]; [|reflexivity].
   destruct (signer_constructible (k_a t) && signer_constructible (k_b t)); cbn in A; [exact A|discriminate].
+Qed.
+
+(* ---------- 5. integer payload fields on the issuing side ---------- *)
+
+Theorem issue_number_small u z : Z.abs z <= two53 -> issue_number u z = z.
+Proof.
+  intros H. unfold issue_number, f64_int. destruct u; [reflexivity|].
+  destruct (Z.abs z <=? two53) eqn:E; [reflexivity|]. apply Z.leb_gt in E. lia.
+Qed.
+
+Theorem issue_number_exact_iff u : (forall z, issue_number u z = z) <-> u = true.
+Proof.
+  split.
+  - intros H. destruct u; [reflexivity|]. specialize (H (two53 + 1)). vm_compute in H. discriminate.
+  - intros ->. reflexivity.
 Qed.
